@@ -424,7 +424,7 @@ def check_identity_comparisons(ctx: Ctx, classes: Optional[List[str]], floor: in
                     if why:
                         bad += 1
                         ctx.violated(g, n, f"{g.qualname}: values are compared by value", "`==` / `!=` (identity only for None, booleans and objects without value equality)", f"`{_ast.unparse(n)[:100]}` compares by identity a value of type {why}: equal values held in distinct objects are told apart",
-                                     **({"guard": "site"} if "value class" in str(why) else {"guard": "text", "guard_text": _ast.unparse(g.node)}))
+                                     **({} if "value class" in str(why) else {"guard": "text", "guard_text": _ast.unparse(g.node)}))
                 left = right
         if not bad:
             clean += 1
